@@ -343,6 +343,8 @@ class BeckeWeights:
         # to counteract the scaling of the memory usage of the
         # vectorized implementation of the Becke partitioning.
         npoints = points.shape[0]
+        if npoints == 0:
+            return np.zeros(0)
         chunk_size = max(1, (10 * npoints) // atcoords.shape[0] ** 2)
         aim_weights = np.concatenate(
             [
